@@ -86,7 +86,9 @@ type Layer interface {
 	Refresh(ctx context.Context, hosts source.RegistryHosts, refspec reference.Spec, desc ocispec.Descriptor) error
 
 	// Verify verifies this layer using the passed TOC Digest.
-	// Nop if Verify() or SkipVerify() was already called.
+	// If Verify() already succeeded on this layer, the passed digest is compared with
+	// the digest of the verified TOC. If SkipVerify() was already called, this returns
+	// an error because contents might have been cached without verification.
 	Verify(tocDigest digest.Digest) (err error)
 
 	// SkipVerify skips verification for this layer.
@@ -420,8 +422,9 @@ type layer struct {
 	prefetchSize   int64
 	prefetchSizeMu sync.Mutex
 
-	r   reader.Reader
-	rMu sync.Mutex
+	r        reader.Reader
+	verified bool // true if r was obtained through VerifyTOC (guarded by rMu)
+	rMu      sync.Mutex
 
 	closed   bool
 	closedMu sync.Mutex
@@ -475,9 +478,19 @@ func (l *layer) Verify(tocDigest digest.Digest) (err error) {
 	l.rMu.Lock()
 	defer l.rMu.Unlock()
 	if l.r != nil {
+		// This layer object is shared through the resolver's cache and was already
+		// verified or set up without verification. Never report success for a digest
+		// that hasn't been checked against the TOC of this layer.
+		if !l.verified {
+			return fmt.Errorf("layer is already used without verification")
+		}
+		if actual := l.verifiableReader.Metadata().TOCDigest(); actual != tocDigest {
+			return fmt.Errorf("invalid TOC JSON %q; want %q", actual, tocDigest)
+		}
 		return nil
 	}
 	l.r, err = l.verifiableReader.VerifyTOC(tocDigest)
+	l.verified = err == nil
 	return
 }
 
